@@ -7,7 +7,7 @@
    - DeferCase: operations captured on a future-backed sample set, resolved afterwards;
    - AsCase: as_samples of one assignment table in several accepted forms. *)
 From Coq Require Import List ZArith QArith Qcanon Bool Arith.
-From Dimod Require Import Base.Util Model.Poly Model.Samples Model.SSet.
+From Dimod Require Import Base.Util Model.Poly Model.Samples Model.SSet Model.Narrow.
 Import ListNotations.
 Open Scope Qc_scope.
 
@@ -22,7 +22,10 @@ Inductive step :=
 Inductive case :=
 | SeqCase (K : lkeys) (sortl : bool) (init seen0 : sset) (steps : list step)
 | DeferCase (K : lkeys) (base : sset) (ops : list op) (pending : bool) (calls : list dcall) (seen : option sset)
-| AsCase (ref_labels : list label) (ref_rows : list (list Qc)) (outs : list (option (list label * list (list Qc)))).
+| AsCase (ref_labels : list label) (ref_rows : list (list Qc)) (outs : list (option (list label * list (list Qc))))
+(* as_samples of integer values given WITHOUT dtype in a list-like form: the bit width of the signed integer
+   dtype of the returned array (None = ValueError) must be the model's choice *)
+| NarrowCase (vals : list Z) (seen : option nat).
 
 Definition same_frame (a b : sset) : bool :=
   list_eqb Nat.eqb (labels a) (labels b) && vartype_eqb (vt a) (vt b) && (info a =? info b)%nat
@@ -115,4 +118,5 @@ Definition check (c : case) : bool :=
       option_eqb sset_eqb (resolve K (fold_left (fun p o => defer o p) ops []) base) seen
       && option_eqb sset_eqb (drun K base calls (if pending then DPending [] else DResolved base)) seen
   | AsCase rl rr outs => forallb (as_out_ok rl rr) outs
+  | NarrowCase vals seen => option_eqb Nat.eqb (narrow vals) seen
   end.
